@@ -173,6 +173,36 @@ func c17FollowUp(ctx context.Context, l *lk.Lake, x lk.Op, got lk.Contents, befo
 		}
 		cur = c
 	}
+	// 1b. After an interrupted vector add (or compaction writing vectors): give every object of
+	// the branch a vector copy (again) and read the branch through the vector runtime, which the
+	// optimizer chooses for these two query shapes once all objects have vectors.
+	if x.Kind == "addvec" || (x.Kind == "compact" && x.Vec) {
+		objs, err := l.Objects(ctx, x.Pool, x.Branch)
+		if err != nil {
+			return "followup-objects: " + errClass(err)
+		}
+		for _, o := range objs {
+			if o.Vec {
+				continue
+			}
+			if _, err := l.Apply(ctx, lk.Op{Kind: "addvec", Pool: x.Pool, Branch: x.Branch, IDs: []string{o.ID.String()}}); err != nil {
+				return "followup-addvec: " + errClass(err)
+			}
+		}
+		for _, q := range [][2]string{{"sum(k)", "sort k | sum(k)"}, {"count() by v", "sort k | count() by v"}} {
+			vec, err := l.Query(ctx, fmt.Sprintf("from %s@%s | %s", x.Pool, x.Branch, q[0]))
+			if err != nil {
+				return "followup-vector-query: " + errClass(err)
+			}
+			seq, err := l.Query(ctx, fmt.Sprintf("from %s@%s | %s", x.Pool, x.Branch, q[1]))
+			if err != nil {
+				return "followup-query: " + errClass(err)
+			}
+			if !sameMultiset(vec, seq) {
+				return "followup-vector-query: result differs from the row-wise read of the same branch"
+			}
+		}
+	}
 	// 2. Same pool and branch: load, read, delete what was loaded.
 	pool, branch := x.Pool, x.Branch
 	if x.Kind == "renamepool" {
